@@ -18,7 +18,7 @@ func c13OpenArg(r *core.Run) string {
 func c04(r *core.Run) {
 	thriftrw := r.GoBuildRepo("thriftrw", "go.uber.org/thriftrw")
 	per := uint64(r.Pick(150, 1000))
-	runDrivers(r, thriftrw, "safe", uint64(r.Pick(60, 1500)), 30, nil, nil, []driverMon{
+	runDrivers(r, thriftrw, "safe", uint64(r.Pick(120, 1500)), 30, nil, nil, []driverMon{
 		{name: "c04", cases: func(t, c, f int) uint64 { return uint64(t) * per }, extra: []string{c13OpenArg(r)}},
 	})
 	if !r.Replay {
@@ -39,7 +39,7 @@ func c04(r *core.Run) {
 func c14(r *core.Run) {
 	thriftrw := r.GoBuildRepo("thriftrw", "go.uber.org/thriftrw")
 	per := uint64(r.Pick(80, 400))
-	runDrivers(r, thriftrw, "safe", uint64(r.Pick(60, 1500)), 30, nil, nil, []driverMon{
+	runDrivers(r, thriftrw, "safe", uint64(r.Pick(120, 1500)), 30, nil, nil, []driverMon{
 		{name: "c14", cases: func(t, c, f int) uint64 { return uint64(t) * per }},
 	})
 	vchild := r.GoBuild("vchild", "./cmd/vchild")
@@ -60,7 +60,7 @@ func c14(r *core.Run) {
 func c15(r *core.Run) {
 	thriftrw := r.GoBuildRepo("thriftrw", "go.uber.org/thriftrw")
 	per := uint64(r.Pick(60, 300))
-	runDrivers(r, thriftrw, "redact", uint64(r.Pick(60, 1500)), 30, nil, nil, []driverMon{
+	runDrivers(r, thriftrw, "redact", uint64(r.Pick(120, 1500)), 30, nil, nil, []driverMon{
 		{name: "c15", cases: func(t, c, f int) uint64 { return uint64(t) * per }},
 	})
 	if !r.Replay {
